@@ -14,20 +14,20 @@ NOTES = {
  "C03": "Full theorem (gauge + uniqueness) for the model; the independent order-by-order solver of the statement is replaced by the uniqueness theorem (any solver satisfying the defining equations returns the same series).",
  "C04": "Power-trace and characteristic-polynomial forms proved for the model (all orders; truncation for power traces); the analytic statement about numerical eigenvalues of a float matrix is not modelled.",
  "C05": "PARTIAL: proved only for problems whose kept pairs are degenerate; the full statement is refuted by a kernel-checked counterexample = known finding D5 (KNOWN-FINDING line, exit 0).",
- "C06": "PARTIAL: theorem for any environment meeting ImplicitSpec (Hermitian algorithm); that the code's implicit environment (projector products, sparse LU, KPM) meets it, and the non-Hermitian algorithm, rest on the correspondence.",
- "C07": "PARTIAL: operator-algebra and solver theorems + generic naturality; the naturality instance for the Fock representation is not proved; eight systems compared with Fock matrices through order 3.",
+ "C06": "PARTIAL: theorem for any environment meeting ImplicitSpec (Hermitian algorithm); the equation and range clauses of its solver part follow from the contract of direct_greens_function (C06_ambient_solution_meets_spec with C16's row/column assembly); that the code's whole implicit environment (projector products for the inputs, sparse LU, KPM) meets it, and the non-Hermitian algorithm, rest on the correspondence.",
+ "C07": "PARTIAL: operator-algebra and solver theorems + generic naturality; the naturality instance for the Fock representation is not proved; eleven fixed and generated systems (mixed statistics, masks incl. symbolic powers, both algorithms) compared with Fock matrices through order 3.",
  "C08": "Full theorems on the model of NumberOrderedForm (representation invariant WF2, fermions last); SymPy simplification and non-polynomial functions of number operators are not modelled.",
  "C09": "Proof for the shipped programs (regenerated data); arbitrary programs by correspondence against the proved-sound reference evaluator (generated programs) — a scope function may receive only input series as series arguments in that stream.",
  "C10": "Full theorem on the machine model for every history; the mutation clause (caller data, returned values) is decided by value-level snapshots in the harness only.",
  "C11": "Full theorem on the machine model for every fault plan; tied to series.py by correspondence (fault plans on random series networks, operator faults in products).",
  "C12": "Causality theorem for every program + exactly-once on the machine; definition-time laziness of block_diagonalize is decided by the logging-Hamiltonian correspondence.",
  "C13": "PARTIAL: scale, permute, pad, power substitution proved (transport through uniqueness); merging two parameters by correspondence; key/symbol/Taylor bookkeeping: Taylor model proved, the rest correspondence.",
- "C14": "PARTIAL: eigenbasis rotation, carrier naturality and Taylor expansion proved; container / designation normalisation (glue around NumPy, SciPy, SymPy objects) by correspondence (13 formats + presentation variants).",
+ "C14": "PARTIAL: eigenbasis rotation, carrier naturality, Taylor expansion, key normalisation and the blocks made from subspace_indices proved; the rest of the container / designation normalisation (glue around NumPy, SciPy, SymPy objects) by correspondence (13 formats + presentation variants).",
  "C15": "PARTIAL: shift, conjugation, rotation in degenerate levels, relabelling/regrouping of blocks, scaling of H proved; permutation of states across blocks and direct sums by correspondence.",
  "C16": "PARTIAL: diagonal, direct (any admissible pivot set), second-quantised solvers and KPM loop control proved; sparse LU, QR pivot choice, Chebyshev convergence are runtime (residual-tested).",
  "C17": "Full theorems on the (R, L) model; SciPy's LinearOperator composition classes are exercised (composites, adjoints, right multiplication), not modelled.",
  "C18": "Full theorems (loop = Cauchy sum, tuple order, half-sum, value = power-series product); request logs are compared with the model but decide only as a broken correspondence.",
- "C19": "PARTIAL: exactly-once, values, self-reference on the machine proved; the selection rules of index expressions are NumPy's (trusted reference), compared on the dense array.",
+ "C19": "PARTIAL: exactly-once, values, self-reference on the machine proved; the item resolution (NumPy's rule for integers, lists, forward slices + the trial array) is modelled and proved to give NumPy's selection on any large enough dense array, in bounds, each selected element once; the model's NumPy rule itself is tested against NumPy on every run, not proved; masking of zero entries by the harness.",
  "C20": "PARTIAL: set-up decision logic modelled and characterised exactly; shared energies proved for both algorithms; SymPy's Hermiticity test, the numerical orthonormality test and float finiteness by correspondence.",
 }
 checks = []
